@@ -26,7 +26,15 @@
 #define FRESH_CAT(a, b) a##b
 #define FRESH_SEL(v) FRESH_CAT(FRESH_, v)
 #define FRESH(tag, p, n) FRESH_SEL(ENF_##tag)(p, n)
+/* TOP(tag,e): a clause that only exists when the contract is the enforced one (ghost points, witnesses) */
+#define TOP_0(e) 1
+#define TOP_1(e) (e)
+#define TOP_CAT(a, b) a##b
+#define TOP_SEL(v) TOP_CAT(TOP_, v)
+#define TOP(tag, e) TOP_SEL(ENF_##tag)(e)
 #define IN(T, a) T a; static T wit_##a; wit_##a = a
+/* GHOSTG(T,g): give the file-scope ghost point g an arbitrary value and record it as witness */
+#define GHOSTG(T, g) { T tmp_##g; g = tmp_##g; } static T wit_##g; wit_##g = g
 #define GHOST(T, g) T g; static T wit_##g; wit_##g = g
 #define REACH __CPROVER_assert(0, "reach")
 /* must-fail twin of a lemma-conditioned postcondition: hypotheses and lemma instances are jointly satisfiable */
